@@ -127,21 +127,34 @@ def sim_case(arg):
     grid = c02.make_grid(gd)
     rs = np.random.RandomState(seed)
     state = pde.ScalarField(grid, rs.uniform(-1, 1, grid.shape))
+    opts = arg[9] if len(arg) > 9 else {}
+    conserved = lambda s: s  # noqa: the field whose integral must stay constant
     if eqname == "diffusion":
         eq = pde.DiffusionPDE(diffusivity=0.7, bc="auto_periodic_neumann")
-    else:
-        eq = pde.CahnHilliardPDE(interface_width=1.3, bc_c="auto_periodic_neumann", bc_mu="auto_periodic_neumann")
+    elif eqname == "cahn-hilliard":
+        # only the condition of the chemical potential (the OUTER Laplacian) has to be conserving; the condition of the
+        # field itself may be anything
+        eq = pde.CahnHilliardPDE(interface_width=1.3, bc_c=opts.get("bc_c", "auto_periodic_neumann"), bc_mu="auto_periodic_neumann")
+    else:  # generic PDE with two fields: `a` relaxes with non-conserving conditions, `c` is conserved
+        other = opts.get("bc_a", {"value": 0.2})
+        eq = pde.PDE({"a": "laplace(a) - a", "c": "laplace(c**3 - c + 0.5 * a)"} if opts.get("order", "ac") == "ac" else
+                     {"c": "laplace(c**3 - c + 0.5 * a)", "a": "laplace(a) - a"},
+                     bc_ops={"a:laplace": other, "c:laplace": "auto_periodic_neumann"})
+        fa = pde.ScalarField(grid, rs.uniform(-1, 1, grid.shape), label="a")
+        state.label = "c"
+        state = pde.FieldCollection([fa, state] if opts.get("order", "ac") == "ac" else [state, fa])
+        conserved = lambda s: s["c"]  # noqa
     rec = []
     vols = grid.cell_volumes
-    tr = pde.CallbackTracker(lambda s, t: rec.append((t, float(s.integral), float(np.sum(vols * np.abs(s.data))))), interrupts=dt)
+    tr = pde.CallbackTracker(lambda s, t: rec.append((t, float(conserved(s).integral), float(np.sum(vols * np.abs(conserved(s).data))))), interrupts=dt)
     kw = {"adaptive": True, "tolerance": 1e-3} if adaptive else {}
     kw.update(solver_kw)
     try:
         eq.solve(state, t_range=dt * steps, dt=dt, solver=solver, backend=backend, tracker=[tr], **kw)
     except Exception as e:  # noqa
         return {"error": f"{type(e).__name__}: {e}"}
-    i0 = float(state.integral)
-    scale = float(np.sum(grid.cell_volumes * np.abs(state.data))) + 1e-300
+    i0 = float(conserved(state).integral)
+    scale = float(np.sum(grid.cell_volumes * np.abs(conserved(state).data))) + 1e-300
     return {"i0": i0, "rec": rec, "scale": scale}
 
 
@@ -245,9 +258,9 @@ def run(ctx):
     solvers = [("euler", False), ("runge-kutta", False), ("implicit", False), ("crank-nicolson", False),
                ("adams-bashforth", False), ("scipy", False), ("euler", True), ("runge-kutta", True)]
     sjobs = []
-    n_sim = ctx.budget(32, 240)
+    n_sim = ctx.budget(48, 320)
     for k in range(n_sim):
-        eqname = rng.choice(["diffusion", "cahn-hilliard"])
+        eqname = rng.choice(["diffusion", "cahn-hilliard", "cahn-hilliard", "two-fields"])
         cls_pick = rng.choice(["CartesianGrid", "CartesianGrid", "PolarSymGrid", "SphericalSymGrid", "CylindricalSymGrid"])
         nax = {"PolarSymGrid": 1, "SphericalSymGrid": 1, "CylindricalSymGrid": 2}.get(cls_pick) or rng.choice([1, 2])
         shape = [rng.randint(4, 8) for _ in range(nax)]
@@ -256,7 +269,15 @@ def run(ctx):
         per = [False if (cls_pick in ("PolarSymGrid", "SphericalSymGrid") or (cls_pick == "CylindricalSymGrid" and i == 0)) else rng.random() < 0.5 for i in range(nax)]
         gd = {"cls": cls_pick, "shape": shape, "bounds": [[l, l + d * n] for l, d, n in zip(lo, dxs, shape)], "periodic": per}
         solver, adaptive = solvers[k % len(solvers)]
-        dt = 2e-4 if eqname == "cahn-hilliard" else 5e-3
+        dt = 2e-4 if eqname != "diffusion" else 5e-3
+        eopts = {}
+        if eqname == "cahn-hilliard":
+            eopts = {"bc_c": rng.choice(["auto_periodic_neumann", "auto_periodic_neumann", "auto_periodic_dirichlet",
+                                         {"derivative": 0.6} if not any(per) else "auto_periodic_neumann"])}
+        elif eqname == "two-fields":
+            eopts = {"order": rng.choice(["ac", "ca"]),
+                     "bc_a": rng.choice(["auto_periodic_dirichlet", "auto_periodic_dirichlet"] + ([{"value": 0.2}] if not any(per) else []))}
+        # half of the runs use the numba backend (source semantics here): the compiled right-hand sides are separate code
         # documented solver options (a conserved quantity must not depend on them)
         skw = {}
         if solver == "crank-nicolson":
@@ -267,14 +288,17 @@ def run(ctx):
             skw = rng.choice([{}, {"method": "RK23"}, {"method": "DOP853"}])
         elif adaptive:
             skw = rng.choice([{}, {"tolerance": 1e-2}, {"tolerance": 1e-5}])
-        sjobs.append((eqname, gd, solver, "numpy", adaptive, dt, rng.choice([3, 10, 25]), rng.randint(0, 10 ** 6), skw))
+        sjobs.append((eqname, gd, solver, rng.choice(["numpy", "numba"]), adaptive, dt, rng.choice([3, 10, 25]), rng.randint(0, 10 ** 6), skw, eopts))
     res_sim = run_many("harness.c05", "sim_case", sjobs, env={"NUMBA_DISABLE_JIT": "1"}, procs=16)
     n_simj = ctx.budget(4, 24)
-    jobs_j = [tuple(list(j[:3]) + ["numba"] + list(j[4:])) for j in rng.sample(sjobs, min(n_simj, len(sjobs)))]
+    jobs_j = [tuple(list(j[:3]) + ["numba"] + list(j[4:])) for j in rng.sample(sjobs, min(n_simj, len(sjobs)))]  # compiled
     res_simj = run_many("harness.c05", "sim_case", jobs_j, env={"NUMBA_DISABLE_JIT": "0"}, procs=16)
     for job, rr in list(zip(sjobs, res_sim)) + list(zip(jobs_j, res_simj)):
-        eqname, gd, solver, backend, adaptive, dt, steps, seed, skw = job
-        key = {"eq": eqname, "grid": gd, "solver": solver, "backend": backend, "adaptive": adaptive, "dt": dt, "steps": steps, "seed": seed, "solver_options": skw}
+        eqname, gd, solver, backend, adaptive, dt, steps, seed, skw, eopts = job
+        key = {"eq": eqname, "grid": gd, "solver": solver, "backend": backend, "adaptive": adaptive, "dt": dt, "steps": steps, "seed": seed,
+               "solver_options": skw, "equation_options": eopts}
+        if eopts:
+            ctx.hist("equation-options", f"{eqname}:{sorted((k, str(v)) for k, v in eopts.items())}")
         ctx.count(key, nontrivial=True, leg="sim")
         ctx.hist("sim", f"{eqname}:{solver}{'(adaptive)' if adaptive else ''}:{backend}:{CLS[gd['cls']]}")
         if skw:
@@ -317,7 +341,8 @@ def replay(ctx, rep):
         print("integral", val, "scale", scale)
         return abs(val) <= 1e-10 * max(scale, 1e-300)
     if rep["leg"] == "sim":
-        rr = sim_case((c["eq"], c["grid"], c["solver"], c["backend"], c["adaptive"], c["dt"], c["steps"], c["seed"], c.get("solver_options", {})))
+        rr = sim_case((c["eq"], c["grid"], c["solver"], c["backend"], c["adaptive"], c["dt"], c["steps"], c["seed"],
+                       c.get("solver_options", {}), c.get("equation_options", {})))
         print(rr)
         dev, bad, sc, judged = judge_sim(rr)
         return not bad and len(rr["rec"]) >= 2
